@@ -120,9 +120,10 @@ def _top(f, st):
 
 
 def check_pad(model, R):
-    R.rule('C06.PAD', 'max pooling extracts windows with pad_value=-inf (padding never wins); average pooling and convolution pad with 0 (padded zeros are counted); the reducer runs over the whole window', floor=6)
-    for q, want_pad, red in (('max_pool1d_forward', '-np.inf', 'max'), ('max_pool2d_forward', '-np.inf', 'max'), ('avg_pool1d_forward', '0', 'mean'), ('avg_pool2d_forward', '0', 'mean'),
-                             ('conv1d_forward', '0', None), ('conv2d_forward', '0', None)):
+    R.rule('C06.PAD', 'max pooling extracts windows with pad_value=-inf (padding never wins); average pooling and convolution pad with 0 (padded zeros are counted); the reducer runs over the whole window', floor=6)  # (conv part; pooling part declared in rules_convpe)
+    from sa.rules_convpe import check_pool_forward
+    check_pool_forward(model, R, 'C06')
+    for q, want_pad, red in (('conv1d_forward', '0', None), ('conv2d_forward', '0', None)):
         f = model.func('synapgrad.cpu_ops.' + q)
         ew = [c for c in ast.walk(f.node) if isinstance(c, ast.Call) and dotted(c.func) == 'extract_windows']
         ok = len(ew) == 1
